@@ -411,6 +411,45 @@ func c10R4(r *Report) {
 		}
 		r.Check(okAll, "R4", "Reader.request/withdraw-old-on-every-path", withdrawPos.Pos(), "after rebuilding its list the reader withdraws the whole previous list on every path", "a path returns after the reader rebuilt its list without passing the loop that withdraws the previous list: those priorities are never withdrawn")
 	}
+	// (b') the shortcut's cache is refreshed by every rebuild: after the list was rebuilt, every path to a return
+	// stores requestedIndex (to the first requested piece, or to -1 when nothing is requested). A stale index left by a
+	// withdraw-all (Close, EOF, cancellation) makes the next Read in the same piece take the shortcut with nothing
+	// registered and no channel to wait on: it returns no data and the piece is never requested again.
+	if ri := p.Field("tor", "Reader", "requestedIndex"); r.Anchor("R4", "tor.Reader.requestedIndex", ri != nil) {
+		isRI := func(in ssa.Instruction) bool { _, ok := isStoreToField(in, ri); return ok }
+		exits := exitsAvoiding(rebuild, isRI, false)
+		r.Check(len(exits) == 0, "R4", "Reader.request/shortcut-cache-refreshed", rebuild.Pos(), "every path after the rebuild refreshes requestedIndex",
+			"a path returns after the reader rebuilt its request list without storing requestedIndex (e.g. when the new list is empty): the same-piece shortcut later trusts a stale index")
+		// and an empty list resets it: some store of a negative constant exists after the rebuild
+		neg := false
+		allInstrs(req, func(in ssa.Instruction) {
+			if st, ok := isStoreToField(in, ri); ok {
+				var hasNeg func(v ssa.Value, d int) bool
+				hasNeg = func(v ssa.Value, d int) bool {
+					if d > 3 {
+						return false
+					}
+					if k, okk := constInt(v); okk {
+						if _, isC := stripIntConv(v).(*ssa.Const); isC && k < 0 {
+							return true
+						}
+					}
+					if ph, ok := v.(*ssa.Phi); ok {
+						for _, e := range ph.Edges {
+							if hasNeg(e, d+1) {
+								return true
+							}
+						}
+					}
+					return false
+				}
+				if hasNeg(st.Val, 0) {
+					neg = true
+				}
+			}
+		})
+		r.Check(neg, "R4", "Reader.request/shortcut-cache-reset", rebuild.Pos(), "requestedIndex is reset to a negative value when nothing is requested", "Reader.request never resets requestedIndex to a negative value: after a withdraw-all the shortcut still matches the old piece")
+	}
 	// (c) the same-piece shortcut cannot swallow a withdrawal
 	pos := req.Params[1]
 	posNonNeg := edgeReq{Name: "pos >= 0", Match: func(cond ssa.Value, pol bool) bool {
